@@ -787,6 +787,14 @@ func (x *Exec) callOrderChecks(cfg *Config, tg target, pos token.Pos) {
 		}
 		x.oblige(cfg, "call-order", tg.name+" called after "+fs[1], x.specBool(env, parse("calls("+fs[1]+") > old(calls("+fs[1]+"))")), nil, pos)
 	})
+	// option calls-when f <expr> [; ...]: every call of f is made in a state satisfying expr
+	for _, part := range strings.Split(x.c.Options["calls-when"], ";") {
+		part = strings.TrimSpace(part)
+		fs := strings.SplitN(part, " ", 2)
+		if len(fs) == 2 && fs[0] == tg.name {
+			x.oblige(cfg, "call-when", tg.name+" called when "+fs[1], x.specBool(env, parse(fs[1])), nil, pos)
+		}
+	}
 	each("calls-once", func(fs []string) {
 		x.oblige(cfg, "call-once", tg.name+" not called before in this invocation", x.specBool(env, parse("calls("+fs[0]+") == old(calls("+fs[0]+"))")), nil, pos)
 	})
